@@ -6,9 +6,10 @@ PROP = {
                   "emit::level::{MinLevelFilter::matches, treat_unleveled_as, Level::from_str, parse, Level as FromValue}"],
     "bounds": "level property absent / typed (4 levels) / text of <= 4 bytes over {i,I,n,f,o,d,b,g,e,E,r,w,W,a,1,blank,(,0x01} / non-level value; "
               "minimum and default any level; numeric MinLevelFilter<u8> over all u8; "
-              "MinLevelPathMap: <= 2 (thorough 3) registrations in symbolic order from the pool {a, aa, a::b, a::bb, a::b::c, b} with any level, optional default, "
-              "event module from the pool, typed event level",
-    "outside": "level texts longer than 4 bytes (6 in the C15 parser harness); path maps with more than 3 registrations or modules outside the pool",
+              "MinLevelPathMap: families of two CONCRETE registration paths and a concrete event module (nested, prefix-sharing siblings, repeated, "
+              "registered name deeper in an unrelated path, skipped segment, root mismatch; 7 quick + 3 thorough families) with symbolic presence of "
+              "each registration, symbolic order, any levels, optional default of any level, any typed event level",
+    "outside": "level texts longer than 4 bytes (6 in the C15 parser harness); path maps with more than 2 registrations or paths outside the written families (symbolic paths: str::split's TwoWaySearcher does not finish)",
     "stubs": [],
     "assumptions": ["text is valid UTF-8 (ASCII alphabet)"],
     "timeout": {"quick": 700, "thorough": 3600},
